@@ -4,6 +4,7 @@ package nbhttp
 // verifSelfParserInputs) and std helpers, run under gosym and natively.
 
 import (
+	"bytes"
 	"net/http"
 	"strconv"
 	"strings"
@@ -106,5 +107,26 @@ func verifSelf_std_functions() string {
 		}
 	}
 	b.WriteString(strconv.FormatUint(uint64(h), 16))
+	return b.String()
+}
+
+// net/http's package initialiser is not interpreted as a whole; the globals
+// its header writer reads (a strings.Replacer, a sync.Pool with a New function)
+// are initialised on first read from the backward slice of the initialiser.
+// The bytes written must agree with the native run. (The request line goes
+// through fmt, which gosym does not interpret, so it is not compared.)
+func verifSelf_header_write_lazy_globals() string {
+	var b strings.Builder
+	for i := 0; i < 3; i++ {
+		h := http.Header{"X-B": {"2", "3"}, "X-A": {"line\nbreak\rcr"}, "User-Agent": {"verif" + strconv.Itoa(i)}, "Content-Length": {"9"}, "A b": {"invalid name"}}
+		var w bytes.Buffer
+		err := h.WriteSubset(&w, map[string]bool{"X-B": i == 1})
+		b.WriteString(strconv.Quote(w.String()))
+		if err != nil {
+			b.WriteString(" ERR")
+		}
+		b.WriteByte('\n')
+	}
+	b.WriteString(http.StatusText(404) + http.CanonicalHeaderKey("x-forwarded-for"))
 	return b.String()
 }
